@@ -208,6 +208,14 @@ func c06Run(t *testing.T, run *Run, sc c06Scenario, rng *rand.Rand) {
 		kind := strings.TrimPrefix(sc.Class, "unknown-")
 		f = Cmd{Kind: kind, Svc: "nosuch", Targets: []string{"nosuch-r1-0:80"}, DeployTO: 2 * time.Second, DrainTO: time.Second, MaxPause: time.Second, Pct: 10}
 	}
+	if f.Kind == "rollout-deploy" && f.Svc == victim && rng.IntN(2) == 0 {
+		// make sure there is something to lose: rollout targets with a split in force
+		prep := Cmd{Kind: "rollout-deploy", Svc: victim, Targets: g.targets(victim, "r"), DeployTO: 5 * time.Second, DrainTO: time.Second}
+		if rec := prep.Exec(w, w.Router); rec.Err == "" {
+			(Cmd{Kind: "rollout-set", Svc: victim, Pct: 50, Allow: []string{"alpha", "beta"}}).Exec(w, w.Router)
+			run.Count("failing_rollout_deploy_with_split_in_force", 1)
+		}
+	}
 	sc.Fail = f
 	before := Observe(w, p, "before", true)
 	if sc.Class == "split-without-rollout" {
